@@ -163,9 +163,25 @@ def _():
 @comp('implicit')
 def _():
     res = {}
+    f = lambda rng: rng.choice(['x', 'y', 'z']) + str(rng.randint(0, 3))
     for sd in (0, 19):
-        d = ImplicitDistribution(lambda rng: rng.choice(['x', 'y', 'z']) + str(rng.randint(0, 3)), n_samples=12, _seed=sd)
+        d = ImplicitDistribution(f, n_samples=12, _seed=sd)
         res[sd] = dict(items=dict(d.items()), exp=d.marginalize(lambda e: e[0]).expectation(lambda e: 1. if e == 'x' else 0.))
+        # sequences on ONE seeded parent: every derived distribution owns a generator seeded like the parent's, and obeys an explicit generator
+        p = ImplicitDistribution(f, n_samples=12, _seed=sd)
+        m1, m2 = p.marginalize(lambda e: e[0]), p.marginalize(lambda e: e[0])
+        a, b = dict(m1.items()), dict(m2.items())
+        p.sample(); p.sample()
+        c = dict(p.marginalize(lambda e: e[0]).items())
+        fresh = dict(ImplicitDistribution(f, n_samples=12, _seed=sd).marginalize(lambda e: e[0]).items())
+        res[sd]['holds:two-marginals-of-one-seeded-parent-agree-and-equal-a-fresh-one'] = (a == b == fresh)
+        res[sd]['holds:sampling-the-parent-first-does-not-change-its-marginal'] = (c == fresh)
+        m3 = ImplicitDistribution(f, n_samples=12, _seed=sd).marginalize(lambda e: e[0])
+        res[sd]['holds:a-derived-distribution-draws-from-the-generator-it-is-given'] = (
+            [m3.sample(rng=random.Random(5)) for _ in range(6)] == [f(random.Random(5))[0] for _ in range(6)])
+        c1 = ImplicitDistribution(f, n_samples=40, _seed=sd).condition(lambda e: e[0] != 'x')
+        res[sd]['holds:a-conditioned-distribution-draws-from-the-generator-it-is-given'] = (
+            [c1.sample(rng=random.Random(9)) for _ in range(3)] == [c1.sample(rng=random.Random(9)) for _ in range(3)])
     return res
 
 
